@@ -153,3 +153,194 @@ func VerifHarness_C07_signs() {
 	vObserve("outlen", uint64(len(out)))
 	vReach("end")
 }
+
+// ---------------------------------------------------------------------
+// E2: the real evaluateExpression on generated well-formed expressions with
+// symbolic literals equals a reference evaluator (usual precedence, left
+// associativity, stacked unary signs); * / % are uninterpreted functions
+// shared by both sides (exactness of Go's constant arithmetic is trusted).
+
+func init() {
+	vHarness["C07_glue"] = VerifHarness_C07_glue
+	vHarness["C07_assert"] = VerifHarness_C07_assert
+	vHarness["C07_constants"] = VerifHarness_C07_constants
+}
+
+type vExpr struct {
+	op    string // "" for a literal
+	l, r  *vExpr
+	lit   int
+	signs string // unary sign run in front of this (sub)expression
+	paren bool   // redundant parentheses around it
+}
+
+var vSignRuns = []string{"", "-", "+", "--", "-+-", "+-"}
+var vBinOps = []string{"+", "-", "*", "/", "%"}
+
+func vGenExpr(d int) *vExpr {
+	e := &vExpr{}
+	if d > 0 && vPick("isbin", 0, 1) == 1 {
+		e.op = vBinOps[vPick("binop", 0, len(vBinOps)-1)]
+		e.l = vGenExpr(d - 1)
+		e.r = vGenExpr(d - 1)
+	} else {
+		e.lit = vInt("lit")
+		vAssume(e.lit >= 0)
+		vAssume(e.lit <= 100)
+	}
+	e.signs = vSignRuns[vPick("signs", 0, len(vSignRuns)-1)]
+	e.paren = vPick("paren", 0, 1) == 1
+	return e
+}
+
+func vPrec(op string) int {
+	if op == "+" || op == "-" {
+		return 1
+	}
+	return 2
+}
+
+// vRender renders e so that the usual grammar parses it back to e.
+func vRender(e *vExpr, out []token) []token {
+	for _, c := range e.signs {
+		out = append(out, token{tokSymbol, string(c)})
+	}
+	// a signed binary expression needs parentheses, a literal does not
+	need := e.paren || (e.op != "" && e.signs != "")
+	if need {
+		out = append(out, token{tokParenL, "("})
+	}
+	if e.op == "" {
+		out = append(out, token{tokNumber, vDec(e.lit)})
+	} else {
+		wrapL := e.l.op != "" && e.l.signs == "" && !e.l.paren && vPrec(e.l.op) < vPrec(e.op)
+		wrapR := e.r.op != "" && e.r.signs == "" && !e.r.paren && vPrec(e.r.op) <= vPrec(e.op)
+		if wrapL {
+			out = append(out, token{tokParenL, "("})
+		}
+		out = vRender(e.l, out)
+		if wrapL {
+			out = append(out, token{tokParenR, ")"})
+		}
+		out = append(out, token{tokSymbol, e.op})
+		if wrapR {
+			out = append(out, token{tokParenL, "("})
+		}
+		out = vRender(e.r, out)
+		if wrapR {
+			out = append(out, token{tokParenR, ")"})
+		}
+	}
+	if need {
+		out = append(out, token{tokParenR, ")"})
+	}
+	return out
+}
+
+// vRefEval: (value, division by zero somewhere)
+func vRefEval(e *vExpr) (int, bool) {
+	var v int
+	dz := false
+	if e.op == "" {
+		v = e.lit
+	} else {
+		a, da := vRefEval(e.l)
+		b, db := vRefEval(e.r)
+		dz = vOr(da, db)
+		switch e.op {
+		case "+":
+			v = a + b
+		case "-":
+			v = a - b
+		case "*":
+			v = vUF2("mul", a, b)
+		case "/":
+			dz = vOr(dz, b == 0)
+			v = vUF2("div", a, b)
+		default:
+			dz = vOr(dz, b == 0)
+			v = vUF2("rem", a, b)
+		}
+	}
+	neg := false
+	for _, c := range e.signs {
+		if c == '-' {
+			neg = !neg
+		}
+	}
+	if neg {
+		v = -v
+	}
+	return v, dz
+}
+
+func VerifHarness_C07_glue() {
+	d := vParam("depth")
+	e := vGenExpr(d)
+	toks := vRender(e, nil)
+	want, dz := vRefEval(e)
+	vPrune(false)
+	vAbstractArith(true)
+	got, err := evaluateExpression(toks)
+	vAbstractArith(false)
+	vPrune(true)
+	// only results inside 32 bits can be returned at all
+	fits := vAnd(want >= -(1<<31), want <= (1<<31)-1)
+	if err != nil {
+		vAssert("error-only-for-zero-divisor-or-overflow", vOr(dz, !fits))
+		vReach("rejected")
+		return
+	}
+	vAssert("no-result-when-dividing-by-zero", !dz)
+	vAssert("value-equals-reference", got == want)
+	vObserve("value", uint64(got))
+	vReach("accepted")
+}
+
+// a program is rejected exactly when one of its ;assert conditions is zero
+func VerifHarness_C07_assert() {
+	v := vPick("v", -3, 3)
+	text := ";assert " + vDec(v)
+	if vPick("form", 0, 1) == 1 {
+		// the same value written as a difference
+		text = ";assert 5-" + vDec(5-v)
+	}
+	lines := []sourceLine{
+		{typ: lineComment, comment: text},
+		{typ: lineInstruction, op: "dat", a: []token{{tokNumber, "0"}}},
+	}
+	c, _ := newCompiler(lines, WarriorData{}, ConfigNOP94)
+	w, err := c.compile()
+	if err != nil {
+		vAssert("rejected-iff-assert-is-zero", v == 0)
+		vReach("rejected")
+		return
+	}
+	vAssert("rejected-iff-assert-is-zero", v != 0)
+	vAssert("assembled", len(w.Code) == 1)
+	vReach("accepted")
+}
+
+// the predefined names equal the configuration's values
+func VerifHarness_C07_constants() {
+	cfgs := []SimulatorConfig{ConfigNOP94, ConfigKOTH88, ConfigICWS88, ConfigNopTiny, ConfigNop256, ConfigNopNano,
+		NewQuickConfig(ICWS94, 3, 1, 1, 1), NewQuickConfig(ICWS94, 55440, 10000, 500000, 200)}
+	cfg := cfgs[vPick("config", 0, len(cfgs)-1)]
+	names := []string{"CORESIZE", "MAXLENGTH", "MAXPROCESSES", "MINDISTANCE"}
+	wants := []Address{cfg.CoreSize, cfg.Length, cfg.Processes, cfg.Distance}
+	k := vPick("name", 0, 3)
+	lines := []sourceLine{{typ: lineInstruction, op: "dat", amode: "#", a: []token{{tokNumber, "0"}}, bmode: "#", b: []token{{tokText, names[k]}}}}
+	c, err := newCompiler(lines, WarriorData{}, cfg)
+	vAssert("compiler-created", err == nil)
+	if err != nil {
+		return
+	}
+	w, err := c.compile()
+	vAssert("assembles", err == nil)
+	if err != nil {
+		return
+	}
+	vAssert("predefined-constant-value", w.Code[0].B == wants[k]%cfg.CoreSize)
+	vObserve("b", uint64(w.Code[0].B))
+	vReach("end")
+}
